@@ -22,7 +22,12 @@ def run_classified_leg(ctx, leg, args, what, classify):
             except Exception:
                 pass
         meta = metas[gi] if gi < len(metas) else {}
-        key, found, note = classify(gi, meta, v)
+        verdict = classify(gi, meta, v)
+        if verdict is None:
+            # the classifier says this disagreement is not this property's business (another property's check reports it)
+            ctx.notes.append("%s case %d: disagreement left to another property's check" % (leg, gi)) if len(ctx.notes) < 40 else None
+            continue
+        key, found, note = verdict
         if seen_keys.get(key, 0) >= 3:
             continue
         seen_keys[key] = seen_keys.get(key, 0) + 1
